@@ -6,14 +6,20 @@ from lib.prop import Prop
 
 class C20(Prop):
     pid = "C20"
-    lean_targets = ["M17.Props.C20", "M17.Props.C03"]
+    lean_targets = ["M17.Props.C20", "M17.Props.C03", "M17.Props.C20P"]
     theorems = ["M17.C20.type_report_voice", "M17.C20.type_report_total", "M17.C20.can_report", "M17.C20.voice_lsf_is_stream",
-                "M17.C20.audio_bytes_multiple_of_640", "M17.C20.callsign_report", "M17.C03.lock_needs_decodable_frames"]
+                "M17.C20.audio_bytes_multiple_of_640", "M17.C20.callsign_report", "M17.C03.lock_needs_decodable_frames",
+                "M17.C20P.spec_callsign_eq", "M17.C20P.lsf_facts", "M17.C20P.type_bits", "M17.C20P.link_report"]
     level_text = ("PARTIAL proof. Lean 4 theorems for the decision logic of the receiver's link report, for ALL inputs: the TYPE field the "
                   "transmitter builds for a voice stream with any CAN 0..15 (Spec.Tx.voiceType) is classified as a stream (never packet mode), is "
                   "printed as STR:V/V, and its CAN field prints the transmitter's CAN; the report is total over all 65536 TYPE values; the "
                   "callsigns printed are the decode of the encoded addresses, which by C17's round-trip theorem are the transmitter's; the audio "
-                  "written is 640 bytes per delivered stream frame. Everything else the property names is process behaviour that no theorem here "
+                  "written is 640 bytes per delivered stream frame. These are composed into ONE statement, link_report (M17.Props.C20P): for every source and "
+                  "destination callsign over the M17 alphabet (1-9 characters, destination possibly absent), every CAN 0..15, every META content, "
+                  "every decoder state and every clean soft image (magnitudes 1..7) of the link setup frame the specification transmitter builds "
+                  "(Spec.Tx.lsfFrameBits of lsfBytes — what m17-mod emits, C13), the decoder model reports that LSF (result OK, stream mode) and "
+                  "the fields m17-demod prints are SRC = source, DEST = destination or BROADCAST, STR:V/V, CAN = can, with no packet-mode "
+                  "diagnostic (uses spec_callsign_eq: the specification address equals encode_callsign's). Everything else the property names is process behaviour that no theorem here "
                   "exhibits (option parsing, int16 I/O loops, exit status, the demodulator's acquisition): it is decided by running the two "
                   "built programs, m17-mod piped into m17-demod -l, over callsigns x CAN x polarity x leading noise x audio, and checking "
                   "stderr fields, stdout length, EOS flag and both exit statuses.")
